@@ -27,7 +27,7 @@ def units():
         U("header_seek", "h_header_seek", "header_seek", props=["C03", "C14", "C15"],
           loops={"header_seek": [{"loop_id": 0, "assigns_locals": True,
                                   "assigns": "psf->error, psf->pipeoffset, psf->syserr, __CPROVER_object_whole (&gio)",
-                                  "invariants": "skip <= __CPROVER_loop_entry (skip)",
+                                  "invariants": "skip <= __CPROVER_loop_entry (skip) && gio.fseek_calls == __CPROVER_loop_entry (gio.fseek_calls)",
                                   "decreases": "skip"}]}),
         U("header_gets", "h_header_gets", "header_gets",
           loops={"header_gets": [{"loop_id": 0, "assigns_locals": True,
